@@ -1,6 +1,9 @@
 package rules
 
 import (
+	"go/token"
+	"go/types"
+
 	"fv/internal/core"
 	"fv/internal/ssax"
 
@@ -98,5 +101,114 @@ func c09Ownership(ctx *core.Ctx, r *RT) {
 		ctx.Check(bad == "" && nStores > 0, "C09.R6", "FContextImpl."+field+" › assigned only where the context is allocated; never deleted from", "lib/go/context.go",
 			sprintf("%d assignments, all on a context allocated in the same function", nStores),
 			"headers already on a context are dropped ("+bad+"): a handler that reuses its inbound context for an onward call loses the op id / correlation id its reply must carry, so the caller never gets the reply")
+	}
+}
+
+// c09DerivedHeaderState — C09.R9: what goes on the wire is the context's
+// header map as it is now. If the context keeps anything computed from a
+// header map in another field (an encoded form, a parsed timeout), every
+// method that writes that map also assigns that field — otherwise the next
+// request is sent with the state of an earlier one (a SetTimeout that the
+// cached encoding does not see: the handler observes the old timeout).
+func c09DerivedHeaderState(ctx *core.Ctx, r *RT) {
+	ctx.Rule("C09.R9", "no stale state derived from a context's headers: a field computed from a header map is assigned by every method that writes that map", 1)
+	impl := r.Named("FContextImpl")
+	if impl == nil {
+		ctx.Unresolved("C09.R9", "FContextImpl", "type not found")
+		return
+	}
+	isMethod := func(fn *ssa.Function) bool {
+		return fn.Signature.Recv() != nil && ssax.TypeNamed(fn.Signature.Recv().Type(), "", "FContextImpl")
+	}
+	type derived struct {
+		field, from string
+		at          string
+	}
+	var ds []derived
+	for _, fn := range r.Fns {
+		if !isMethod(fn) {
+			continue
+		}
+		ssax.Instrs(fn, func(in ssa.Instruction) {
+			st, ok := in.(*ssa.Store)
+			if !ok {
+				return
+			}
+			f := fieldNameOfAddr(st.Addr)
+			if f == "" {
+				return
+			}
+			if fa, isFA := st.Addr.(*ssa.FieldAddr); !isFA || !ssax.TypeNamed(fa.X.Type(), "", "FContextImpl") {
+				return
+			}
+			if _, isMap := st.Val.Type().Underlying().(*types.Map); isMap {
+				return
+			}
+			// does the stored value depend on a load of a map field of the context?
+			var src string
+			var walk func(v ssa.Value, d int)
+			seen := map[ssa.Value]bool{}
+			walk = func(v ssa.Value, d int) {
+				if v == nil || d > 6 || seen[v] || src != "" {
+					return
+				}
+				seen[v] = true
+				if ld, isLd := v.(*ssa.UnOp); isLd && ld.Op == token.MUL {
+					if _, isMap := ld.Type().Underlying().(*types.Map); isMap {
+						if mf := fieldNameOfAddr(ld.X); mf != "" {
+							src = mf
+							return
+						}
+					}
+				}
+				if x, isIn := v.(ssa.Instruction); isIn {
+					for _, op := range x.Operands(nil) {
+						if *op != nil {
+							walk(*op, d+1)
+						}
+					}
+				}
+			}
+			walk(st.Val, 0)
+			if src != "" && src != f {
+				ds = append(ds, derived{f, src, r.IPos(in)})
+			}
+		})
+	}
+	if len(ds) == 0 {
+		ctx.Discharge("C09.R9", "FContextImpl › keeps nothing derived from its header maps", "lib/go/context.go", "no field is assigned a value computed from a header map")
+		return
+	}
+	for _, d := range ds {
+		for _, fn := range r.Fns {
+			if !isMethod(fn) {
+				continue
+			}
+			writes, assigns := false, false
+			ssax.Instrs(fn, func(in ssa.Instruction) {
+				switch x := in.(type) {
+				case *ssa.MapUpdate:
+					if ld, ok := ssax.Strip(x.Map).(*ssa.UnOp); ok && fieldNameOfAddr(ld.X) == d.from {
+						if fa, isFA := ld.X.(*ssa.FieldAddr); isFA && len(fn.Params) > 0 && ssax.Strip(fa.X) == ssa.Value(fn.Params[0]) {
+							writes = true // the receiver's own map (not a clone under construction)
+						}
+					}
+				case *ssa.Store:
+					if fieldNameOfAddr(x.Addr) == d.field {
+						assigns = true
+					}
+				}
+				if c, ok := ssax.AsCall(in); ok && c.FullName() == "builtin.delete" && len(c.Common.Args) > 0 {
+					if ld, isLd := ssax.Strip(c.Common.Args[0]).(*ssa.UnOp); isLd && fieldNameOfAddr(ld.X) == d.from {
+						writes = true
+					}
+				}
+			})
+			if !writes {
+				continue
+			}
+			ctx.Check(assigns, "C09.R9", ssax.Name(fn)+" › writes "+d.from+" and refreshes "+d.field, fnPos(r, fn), "assigns "+d.field,
+				"the context keeps "+d.field+", computed from "+d.from+" (at "+d.at+"), but "+ssax.Name(fn)+" changes "+d.from+" without assigning "+d.field+": the next request is sent with the stale value — the handler observes a timeout or header the caller has since replaced")
+		}
 	}
 }
